@@ -71,9 +71,27 @@ def run_case(c, d):
         y = np.conj(x[::-1]).copy()
     feats = {'cls': cls, 'relation': rel, 'nfft_odd': bool(NFFT % 2)}
     log = []
+    prebuilt = {}
+    if d.get('reuse') is None and d.get('j', 0) % 6 == 2 and rel in ('shift', 'conj') and np.iscomplexobj(x):
+        # the caller produces the transformed record in its own work buffer, in place, after the first (lazily
+        # evaluated) object was constructed on that buffer and before either is read
+        try:
+            buf = np.array(x, copy=True)
+            prebuilt['x'] = E.build(cls, d['p'], buf, NFFT=NFFT, fs=d['fs'], scale=False)
+            if rel == 'shift':
+                buf *= np.exp(2j * np.pi * m * n / NFFT)
+            else:
+                np.conj(buf, out=buf)
+            prebuilt[rel] = E.build(cls, d['p'], buf, NFFT=NFFT, fs=d['fs'], scale=False)
+            feats = dict(feats, caller_recycles_its_buffer=True)
+        except Exception as exc:
+            c.exception('transformed-run', exc, feats)
+            return
     for role, data in (('x', x), (rel, y)):
         try:
-            if d.get('reuse') is not None and role != 'x':
+            if role in prebuilt:
+                p = prebuilt[role]
+            elif d.get('reuse') is not None and role != 'x':
                 p = E.build_reused(cls, d['p'], data, NFFT=NFFT, fs=d['fs'], scale=False, salt=d['reuse'])
             else:
                 p = E.build(cls, d['p'], data, NFFT=NFFT, fs=d['fs'], scale=False)
